@@ -167,6 +167,73 @@ Definition wrapped {A} (f : bytes -> outcome A) (first second third : sread) (e1
 Definition status_public (o : outcome bytes) : outcome bytes :=
   match o with Exc ZombieProcess => Val status_zombie | _ => o end.
 
+(* ------------------------------------------------ the public name() and its memory *)
+(* Process.cmdline() of _pslinux (text read with the fs encoding; the separators '\0', ' ' and
+   '/' are ASCII, so splitting commutes with decoding and the model works on the bytes):
+   sep = '\0' if data ends with it else ' '; one trailing sep dropped; split; a single
+   NUL-terminated argument containing blanks is split on blanks *)
+Definition drop_last (l : bytes) : bytes := removelast l.
+Definition cmdline_args (data : bytes) : list bytes :=
+  let nul := suffixb [0] data in
+  let sep := if nul then 0 else 32 in
+  let data' := if suffixb [sep] data then drop_last data else data in
+  let l := split_on sep data' in
+  if nul && (length l =? 1)%nat && contains 32 data' then split_on 32 data' else l.
+
+(* os.path.basename: what follows the last '/' *)
+Definition basename (p : bytes) : bytes :=
+  match rfind_byte 47 p with Some k => skipn (S k) p | None => p end.
+
+Inductive cread := CData (b : bytes) | CENOENT | CESRCH | CEACCES.   (* open()+read() of <pid>/cmdline *)
+Record nstate := { ns_stat : sread; ns_cmd : cread }.                (* what the kernel shows now *)
+Definition stat_exists (k : nstate) : bool := match ns_stat k with SData _ => true | _ => false end.
+
+(* _pslinux.Process.cmdline under wrap_exceptions *)
+Definition cmdline_pub (k : nstate) : outcome (list bytes) :=
+  let zombie := zombie_read (ns_stat k) in
+  match ns_cmd k with
+  | CEACCES => Exc AccessDenied
+  | CESRCH => if zombie then Exc ZombieProcess else Exc NoSuchProcess
+  | CENOENT => if zombie then Exc ZombieProcess
+               else if stat_exists k then Exc OSError else Exc NoSuchProcess
+  | CData [] => if zombie then Exc ZombieProcess else Val []
+  | CData d => Val (cmdline_args d)
+  end.
+
+(* psutil/__init__.py Process.name() on POSIX.  [mem] is the object's remembered self._name
+   (None before the first call); it is written, and read only on Windows
+   (`if WINDOWS and self._name is not None: return self._name`).  Returns the answer and the
+   new memory. *)
+Definition name_step (windows : bool) (mem : option bytes) (k : nstate) : outcome bytes * option bytes :=
+  match (if windows then mem else None) with
+  | Some cached => (Val cached, mem)
+  | None =>
+    let e := stat_exists k in
+    match wrapped name (ns_stat k) (ns_stat k) (ns_stat k) e e with
+    | Val n =>
+      let r :=
+        if (15 <=? length n)%nat then
+          match cmdline_pub k with
+          | Exc AccessDenied | Exc ZombieProcess => Val n
+          | Exc x => Exc x
+          | OutOfModel => OutOfModel
+          | Val [] => Val n
+          | Val (a0 :: _) => if prefixb n (basename a0) then Val (basename a0) else Val n
+          end
+        else Val n in
+      (r, match r with Val x => Some x | _ => mem end)
+    | Exc x => (Exc x, mem)
+    | OutOfModel => (OutOfModel, mem)
+    end
+  end.
+
+(* a history: the same object asked again and again while the kernel state changes *)
+Fixpoint name_hist (windows : bool) (mem : option bytes) (ks : list nstate) : list (outcome bytes) :=
+  match ks with
+  | [] => []
+  | k :: r => fst (name_step windows mem k) :: name_hist windows (snd (name_step windows mem k)) r
+  end.
+
 (* psutil.Process(pid) (psutil/__init__.py _init -> _get_ident) calls
    self._proc.create_time(monotonic=True) and lets everything but AccessDenied /
    ZombieProcess / NoSuchProcess propagate: a stat file on which that call fails makes
